@@ -41,6 +41,11 @@ for cls, qn in (('Socket', 'socket.Socket.poll'), ('AsyncSocket', 'async_socket.
                          ('waited-full-timeout',
                           'now <= old(now) + self.server.ping_interval + self.server.ping_timeout')])
     c.ensures('no-None-in-result', 'forall(lambda k: result[k] is not None, 0, len(result))')
+    c.rely('queued-packets-are-well-formed',
+           'forall(lambda k: packet_ok(result[k]), 0, len(result))',
+           'every packet is put on a queue through Socket.send (precondition packet-wf, proved '
+           'at every call site) or built by Packet.__init__ on the spot; nothing modifies a '
+           'queued packet except Packet.encode, which preserves packet_ok')
     c.ensures('taken-is-result', 'self.queue.taken == old(self.queue.taken) + result')
     c.ensures('accepted-grows', 'self.queue.accepted[0:len(old(self.queue.accepted))] == '
               'old(self.queue.accepted)')
@@ -98,6 +103,7 @@ for cls, mod in (('Socket', 'socket'), ('AsyncSocket', 'async_socket')):
               "'ping timeout')))", props=['C05', 'C07'])
     c.ensures('already-closing-silent', 'implies(old(self.closing), ' + FLAGS_SAME +
               ' and events == old(events))')
+    c.ensures('events-only-grow', 'grows(events, old(events))')
     c.ensures('dead-no-message-enqueued',
               'appended_at_most_close(self.queue.accepted, old(self.queue.accepted), None)')
     c.ensures('queue-wf', 'self.queue.unf >= len(self.queue.items)')
@@ -119,6 +125,7 @@ for cls, mod in (('Socket', 'socket'), ('AsyncSocket', 'async_socket')):
     c.param('self', Ref(cls)).param('pkt', Ref('Packet'))
     c.requires(SOCK_WF, 'socket-wf')
     c.requires('0 <= pkt.packet_type and pkt.packet_type <= 6', 'packet-type')
+    c.requires('packet_ok(pkt)', 'packet-wf')      # guarantee side of the queue rely (see poll)
     c.raises('SocketIsClosedError', 'self.closed', ensures=[('unchanged', QUIET + ' and '
              'self.queue.items == old(self.queue.items) and self.queue.unf == '
              'old(self.queue.unf) and self.queue.taken == old(self.queue.taken)')])
@@ -128,6 +135,7 @@ for cls, mod in (('Socket', 'socket'), ('AsyncSocket', 'async_socket')):
               ' and events == old(events))', props=['C03'])
     c.ensures('already-closing-silent', 'implies(old(self.closing), ' + FLAGS_SAME +
               ' and events == old(events))')
+    c.ensures('events-only-grow', 'grows(events, old(events))')
     c.ensures('dead-peer-closed-first', 'implies(old(ping_expired(self, now)), self.closing and '
               'appended_at_most_close(self.queue.accepted, old(self.queue.accepted), pkt))',
               props=['C03', 'C07'])
@@ -162,6 +170,7 @@ for cls, mod in (('Socket', 'socket'), ('AsyncSocket', 'async_socket')):
               "reason or 'server disconnect'))", props=['C05'])
     c.ensures('no-handler-no-event', "implies('disconnect' not in self.server.handlers, "
               "events == old(events))", props=['C05'])
+    c.ensures('events-only-grow', 'grows(events, old(events))')
     c.ensures('only-close-packet-enqueued',
               'appended_at_most_close(self.queue.accepted, old(self.queue.accepted), None)')
     c.ensures('abort-enqueues-nothing', 'implies(abort, self.queue.accepted == '
@@ -247,6 +256,7 @@ for cls, mod in (('Socket', 'socket'), ('AsyncSocket', 'async_socket')):
               "is_handler_task(task_name(spawned[len(old(spawned))])))", props=['C04'])
     c.ensures('message-leaves-session-alone', "implies(pkt.packet_type == 4, " + FLAGS_SAME +
               " and self.queue.accepted == old(self.queue.accepted))", props=['C04', 'C05'])
+    c.ensures('events-only-grow', 'grows(events, old(events))')
     c.ensures('message-payload-unchanged', 'pkt.data == old(pkt.data)', props=['C04'])
     c.ensures('upgrade-answered-with-noop', "implies(pkt.packet_type == 5 and "
               "not old(ping_expired(self, now)), len(self.queue.accepted) == "
@@ -277,8 +287,7 @@ for cls, mod in (('Socket', 'socket'), ('AsyncSocket', 'async_socket')):
         c.modifies('ghost.received')
 
 # ------------------------------------------------------------------------- handle_post_request
-POST_MOD = SOCK_MOD + ['ghost.reads', 'ghost.received', 'Packet.binary', 'Packet.packet_type',
-                       'Packet.data', 'Packet.encode_cache']
+POST_MOD = SOCK_MOD + ['ghost.reads', 'ghost.received']
 ENV_POST = ("'wsgi.input' in environ and ('CONTENT_LENGTH' not in environ or "
             "(int_ok(environ['CONTENT_LENGTH']) and int(environ['CONTENT_LENGTH']) >= 0))")
 NOTHING_DISPATCHED = ('received == old(received) and events == old(events) and '
@@ -298,26 +307,29 @@ for cls, mod in (('Socket', 'socket'), ('AsyncSocket', 'async_socket')):
     for exc in ('ValueError', 'KeyError', 'RecursionError'):
         c.may_raise(exc, 'True', label='undecodable-' + exc,
                     ensures=[('nothing-dispatched', NOTHING_DISPATCHED)], props=['C04', 'C14'])
-    c.may_raise('UnknownPacketError', 'True')
-    c.may_raise('SocketIsClosedError', 'True')
+    c.may_raise('UnknownPacketError', 'True',
+                ensures=[('events-only-grow', 'grows(events, old(events))')])
+    c.may_raise('SocketIsClosedError', 'True',
+                ensures=[('events-only-grow', 'grows(events, old(events))')])
     c.ensures('reads-declared-length-within-limit',
               "reads == old(reads) + [int(environ.get('CONTENT_LENGTH', '0'))] and "
               "int(environ.get('CONTENT_LENGTH', '0')) <= self.server.max_http_buffer_size",
               props=['C14'])
     c.ensures('at-most-16-packets', 'len(received) <= len(old(received)) + 16', props=['C14', 'C02'])
+    c.ensures('events-only-grow', 'grows(events, old(events))')
     c.ensures('received-in-order', 'received[0:len(old(received))] == old(received)',
               props=['C04'])
     c.ensures('queue-wf', 'self.queue.unf >= len(self.queue.items)')
     c.modifies(*POST_MOD)
     c.loop(0, index='i', invariants=[
         ('each-once-in-order', 'received == old(received) + p.packets[0:i]'),
+        ('events-only-grow', 'grows(events, old(events))'),
         ('queue-wf', 'self.queue.unf >= len(self.queue.items)')],
         modifies=SOCK_MOD + ['ghost.received'], props=['C04'])
 
 # ------------------------------------------------------------------------- _websocket_handler
 WS_MOD = SOCK_MOD + ['self.upgrading', 'self.upgraded', 'self.connected', 'ghost.ws_log',
-                     'ghost.received', 'Packet.binary', 'Packet.packet_type', 'Packet.data',
-                     'Packet.encode_cache']
+                     'ghost.received', 'Packet.encode_cache']
 HS_PRE = 'not self.upgrading and implies(self.connected, not self.upgraded)'
 c = REG.contract('socket.Socket._websocket_handler', props=['C03', 'C04', 'C05', 'C06', 'C14'])
 c.param('self', Ref('Socket')).param('ws', Opaque('WS'))
@@ -333,9 +345,11 @@ c.abstract("for attr in ['_sock', 'socket']:",
 c.check_before('try: p = websocket_wait()', 'reads-only-while-open', 'not self.closed',
                props=['C05'])
 c.may_raise('Exception', 'True', label='driver-or-frame-error', ensures=[
+    ('events-only-grow', 'grows(events, old(events))'),
     ('failed-upgrade-consumes-nothing',
      'implies(not self.upgraded, self.queue.taken == old(self.queue.taken))')], props=['C06'])
 c.ensures('flag-reset', 'not self.upgrading', props=['C06'])
+c.ensures('events-only-grow', 'grows(events, old(events))')
 c.ensures('upgrade-only-via-probe', 'implies(old(self.connected) and self.upgraded, '
           'handshake_frames(ws_log, len(old(ws_log))))', props=['C06'])
 c.ensures('failed-upgrade-harmless', 'implies(old(self.connected) and not self.upgraded, '
@@ -350,11 +364,13 @@ c.ensures('result-empty', 'result == []')
 c.modifies(*WS_MOD)
 c.loop(1, invariants=[
     ('steady-state', 'self.upgraded and not self.upgrading and self.connected'),
+    ('events-only-grow', 'grows(events, old(events))'),
     ('queue-wf', 'self.queue.unf >= len(self.queue.items)'),
     ('handshake-record', 'implies(old(self.connected), '
      'handshake_frames(ws_log, len(old(ws_log))))'),
     ('taken-unchanged', 'self.queue.taken == old(self.queue.taken)')],
-    modifies=['p', 'pkt'] + WS_MOD, summarize=True)
+    modifies=['p', 'pkt', 'new Packet.binary', 'new Packet.packet_type', 'new Packet.data'] +
+    WS_MOD, summarize=True)
 
 # -------------------------------------------------------------------------- _upgrade_websocket
 from .schemas import RESP  # noqa: E402
@@ -372,9 +388,11 @@ c.raises('OSError', 'self.upgraded', label='already-upgraded-refused',
                    'self.queue.items == old(self.queue.items)')], props=['C06'])
 c.may_raise('Exception', 'not self.upgraded', label='driver-or-frame-error', ensures=[
     ('flag-reset', 'not self.upgrading'),
+    ('events-only-grow', 'grows(events, old(events))'),
     ('failed-upgrade-consumes-nothing',
      'implies(not self.upgraded, self.queue.taken == old(self.queue.taken))')], props=['C06'])
 c.ensures('flag-reset', 'not self.upgrading', props=['C06'])
+c.ensures('events-only-grow', 'grows(events, old(events))')
 c.ensures('unavailable-is-400', "implies(self.server._async['websocket'] is None, "
           "result['status'] == '400 BAD REQUEST' and " + QUIET + ")", props=['C06'])
 c.ensures('upgrade-only-via-probe', 'implies(old(self.connected) and self.upgraded, '
@@ -405,15 +423,18 @@ c.raises('OSError', UPG + ' and self.upgraded', label='already-upgraded-refused'
                    'self.queue.taken == old(self.queue.taken)')], props=['C06'])
 c.may_raise('Exception', UPG + ' and not self.upgraded', label='driver-or-frame-error', ensures=[
     ('flag-reset', 'not self.upgrading'),
+    ('events-only-grow', 'grows(events, old(events))'),
     ('failed-upgrade-consumes-nothing',
      'implies(not self.upgraded, self.queue.taken == old(self.queue.taken))')], props=['C06'])
 c.may_raise('QueueEmpty', 'not ' + UPG + ' and not (self.upgrading or self.upgraded)',
             label='poll-timeout-closes-session', ensures=[
     ('nothing-taken', 'self.queue.taken == old(self.queue.taken)'),
+    ('events-only-grow', 'grows(events, old(events))'),
     ('closed-with-transport-error', "self.closing and implies(not old(self.closing) and "
      "'disconnect' in self.server.handlers, one_disconnect(events, old(events), "
      "self.server.handlers['disconnect'], self.sid, 'transport error'))")],
             props=['C07', 'C05'])
+c.ensures('events-only-grow', 'grows(events, old(events))')
 c.ensures('polls-during-upgrade-get-noop', 'implies(not ' + UPG + ' and '
           '(old(self.upgrading) or old(self.upgraded)), len(result) == 1 and '
           'result[0].packet_type == 6 and self.queue.taken == old(self.queue.taken) and '
